@@ -8,6 +8,7 @@ extracted trace acceptor and every pair must have been processed exactly once.""
 import json
 import os
 import time
+from concurrent.futures import ThreadPoolExecutor
 from .. import core
 
 OPS = ["sum", "prod", "max", "min"]
@@ -104,12 +105,15 @@ def signed_red_cases(fl):
     return cs
 
 
-def pinned_sort_cases(which_list):
+def pinned_sort_cases(which_list, quick):
     """always run: already sorted / reversed / sorted with one swap / sorted except the last element, above the partition threshold"""
     cs = []
     for which in which_list:
         for n in (20002, 30011, 50000, 100003):
-            for pat in ((1, 14, 15) if which == "merge" else (1, 2, 14, 15)):   # reversed mergesort is quadratic (model and code)
+            pats = (1, 14, 15) if which == "merge" else (1, 2, 14, 15)           # reversed mergesort is quadratic (model and code)
+            if quick and n == 100003:
+                pats = (1,) if which == "merge" else (1, 2)
+            for pat in pats:
                 cs.append((which, pat, n, 500 + n % 89))
     return cs
 
@@ -231,10 +235,16 @@ def run(ctx):
         need = [c for c in dict.fromkeys(cmds) if c not in model_cache]
         if need:
             t0 = time.time()
-            rc, out, err = core.run_lines(drv, need, timeout=1500)
+            nproc = 3 if len(need) >= 30 else 1          # the model is sequential OCaml: spread long batches over 3 processes
+            parts = [need[k::nproc] for k in range(nproc)]
+            with ThreadPoolExecutor(max_workers=nproc) as ex:
+                res = list(ex.map(lambda part: core.run_lines(drv, part, timeout=1500), parts))
+            out = [None] * len(need)
+            for k, (rc, o, err) in enumerate(res):
+                if len(o) != len(parts[k]):
+                    raise core.BuildError("c13 model driver failed: rc=%s, %d of %d answers; %s" % (rc, len(o), len(parts[k]), err[-300:]))
+                out[k::nproc] = o
             tick("model:" + need[0].split()[0], t0)
-            if len(out) != len(need):
-                raise core.BuildError("c13 model driver failed: rc=%s, %d of %d answers; %s" % (rc, len(out), len(need), err[-300:]))
             for c, o in zip(need, out):
                 model_cache[c] = o
         return [model_cache[c] for c in cmds]
@@ -297,13 +307,14 @@ def run(ctx):
         else:
             scs = sorts[:npin][ci % 2::2] + [c for c in sorts[npin:] if c[2] <= 10001 or c[0] == "qt"][ci % 4::4]
         if ci in (0, 3) or not quick:
-            scs = pinned_sort_cases(["qutil", "aligned", "merge"]) + scs
-        if ci in (1, 3) or not quick:
-            scs = pinned_sort_cases(["qt"]) + scs
+            scs = pinned_sort_cases(["qutil", "aligned", "merge"], quick) + scs
+        if ci == 3 or not quick:
+            scs = pinned_sort_cases(["qt"], quick) + scs
         mo_s = model([model_sort_cmd(c, ns, cacheline) for c in scs])
         # the named hypothesis of the sortedness theorem (strided_partition_post) evaluated on the model for every input
         # whose top-level call enters the parallel partition loop
-        hyp = [c for c in scs if (c[0] in ("qutil", "aligned") and c[2] > 2 * LOOP_CHUNK + 1) or (c[0] == "qt" and ns >= 3 and c[2] > 10000)]
+        hyp = [c for c in scs if ((c[0] in ("qutil", "aligned") and c[2] > 2 * LOOP_CHUNK + 1) or (c[0] == "qt" and ns >= 3 and c[2] > 10000))
+               and not (quick and c[2] > 60000)]
         hyp_cmds = ["wallspost %s %d %d %d %d %d" % (c[0], c[1], c[2], c[3], ns if c[0] == "qt" else cacheline, 0 if c[0] == "qt" else LOOP_CHUNK) for c in hyp]
         for c, ho in zip(hyp, model(hyp_cmds)):
             hyp_evals += 1
@@ -316,7 +327,7 @@ def run(ctx):
             if mo == "s outoffuel":      # a generated "safe" case the model says diverges: treat like the risky ones
                 risky.append(c)
         t0 = time.time()
-        header, iout = run_batch(exe, env, ["sort %s %d %d %d 15" % c for c, _ in term], max_fail=2)
+        header, iout = run_batch(exe, env, ["sort %s %d %d %d 60" % c for c, _ in term], max_fail=1)
         tick("impl:sort", t0)
         for (c, mo), io in zip(term, iout):
             evals += 1
